@@ -45,7 +45,8 @@ type vfE8Event struct {
 	// consumer.IsStarved(): 0 = no connection state change, otherwise index into vfE8StarveShapes
 	Starve int `json:"starve,omitempty"`
 	// fault injected into this event (audit C30.1): "" | "killfin:<n>" (SIGKILL before the n-th Finish of the event) |
-	// "errfirst" (the first system call on f.out fails: EBADF) | "errafterfins" (the first one after the FIN batch fails)
+	// "errfirst" (the first system call on f.out fails: EBADF) | "errafterfins" (the first one after the FIN batch fails) |
+	// "killlog:sync" (msg: SIGKILL between the writes and Sync()) | "killlog:move" (SIGKILL in Close() before the move's link)
 	Fault string `json:"fault,omitempty"`
 }
 
@@ -489,8 +490,15 @@ func TestVerifToFileChild(t *testing.T) {
 	cfg.MaxInFlight = opts.MaxInFlight
 	// every log call of the tool is a branch marker (audit C30.3): which rotation reason, which collision loop,
 	// which fatal exit was taken — straight from the real code, keyed by its format string
+	killSlug := "" // fault `killlog:*`: SIGKILL at this log call of the tool (a position between two system calls)
 	logf := func(lvl lg.LogLevel, f string, args ...interface{}) {
-		fmt.Fprintf(res, "LOG %s %s\n", lvl.String(), vfE8LogSlug(f))
+		slug := vfE8LogSlug(f)
+		fmt.Fprintf(res, "LOG %s %s\n", lvl.String(), slug)
+		if killSlug != "" && slug == killSlug {
+			fmt.Fprintf(res, "KILLSELF\n")
+			syscall.Kill(os.Getpid(), syscall.SIGKILL)
+			select {}
+		}
 	}
 	f, err := NewFileLogger(logf, opts, "t", cfg)
 	if err != nil {
@@ -597,6 +605,7 @@ func TestVerifToFileChild(t *testing.T) {
 			rec.mu.Lock()
 			rec.killAt, rec.swapAt, rec.swapFunc = 0, 0, nil
 			rec.mu.Unlock()
+			killSlug = ""
 		}
 	}
 	arm0 = func(ev vfE8Event, body []byte) func() {
@@ -614,6 +623,16 @@ func TestVerifToFileChild(t *testing.T) {
 			say(fmt.Sprintf("tf fault kill fin %d", n))
 			ans("ok")
 			rec.killAt = n
+		case ev.Fault == "killlog:sync" && ev.Kind == "msg":
+			// between the two write(2)s of the record and Sync(): written, not fsynced, not finished
+			say("tf fault kill sync")
+			ans("ok")
+			killSlug = "syncing-records-to-disk"
+		case ev.Fault == "killlog:move":
+			// Close(): gzip member closed, fsynced, descriptor closed — killed before the link that starts the move
+			say("tf fault kill move")
+			ans("ok")
+			killSlug = "moving-finished-file-to"
 		case ev.Fault == "errfirst":
 			// only where the first primitive of the event is a system call on f.out
 			ok := vfE8OutOpen(f)
@@ -844,8 +863,18 @@ func vfE8GenScript(r *vfRand) vfE8Script {
 	// process is SIGKILLed before the n-th Finish of that event, or the first system call on f.out (or the first one
 	// after the FIN batch) fails. The script ends there (the tool is dead), which is why only a third gets one.
 	if r.Intn(3) == 0 && len(sc.Events) > 0 {
-		fault := []string{"killfin:1", "killfin:1", "killfin:2", "killfin:3", "errfirst", "errfirst", "errfirst", "errafterfins", "errafterfins"}[r.Intn(9)]
+		fault := []string{"killfin:1", "killfin:1", "killfin:2", "killfin:3", "errfirst", "errfirst", "errfirst", "errafterfins", "errafterfins",
+			"killlog:sync", "killlog:sync", "killlog:move", "killlog:move"}[r.Intn(13)]
 		kind := []string{"tick", "tick", "hup", "hup", "msg", "termstop"}[r.Intn(6)]
+		if fault == "killlog:sync" {
+			kind = "msg"
+		}
+		if fault == "killlog:move" {
+			kind = []string{"hup", "hup", "termstop", "tick", "msg"}[r.Intn(5)]
+			if r.Intn(3) != 0 && strings.Contains(sc.FilenameFormat, "<REV>") {
+				sc.WorkDir = true // the move only exists with a work dir (which needs <REV> in the format)
+			}
+		}
 		var burst []vfE8Event
 		if strings.HasPrefix(fault, "killfin:") || fault == "errafterfins" {
 			// make sure a FIN batch is waiting: n un-starved messages right before (as far as max-in-flight allows)
@@ -1109,6 +1138,16 @@ func TestVerifToFileCorr(t *testing.T) {
 	scripts := make([]vfE8Script, n)
 	for i := range scripts {
 		scripts[i] = vfE8GenScript(r)
+		if os.Getenv("VF_E8_OLDGEN") != "" {
+			// mutation trials only: the input classes of before audit round 7 (never starved, no injected fault,
+			// max-in-flight >= 1) — shows what the new classes add
+			if scripts[i].MaxInFlight == 0 {
+				scripts[i].MaxInFlight = 1
+			}
+			for j := range scripts[i].Events {
+				scripts[i].Events[j].Starve, scripts[i].Events[j].Fault = 0, ""
+			}
+		}
 	}
 	if rp := os.Getenv("VF_E8_REPLAY"); rp != "" {
 		raw, err := os.ReadFile(rp)
